@@ -96,6 +96,8 @@ class MemFilestore(VirtualFilestore):
             raise FileNotFoundError(file)
         b = self.files[k]
         off = 0 if offset is None else offset
+        if not data:
+            return
         if off > len(b):
             b.extend(b"\0" * (off - len(b)))
         b[off : off + len(data)] = data
